@@ -30,6 +30,7 @@ type connopsCfg struct {
 	joinLeave  bool
 	horizon    time.Duration // virtual-time window during the concurrent phase (timer-first deviations)
 	delta      bool          // the actor subscribes with fossil delta (positioned channels)
+	bound      int           // deviation bound override for this scenario (0: the set's bound)
 }
 
 func (c connopsCfg) name() string {
@@ -60,7 +61,11 @@ func connopsRegister(s connopsSet) {
 		var out []vsched.Variant
 		for _, c := range cfgs {
 			connopsCfgs[c.name()] = c
-			out = append(out, vsched.Variant{Name: c.name(), Bound: bound, Shards: shards, BudgetS: budget})
+			b, sh := bound, shards
+			if c.bound > b {
+				b, sh = c.bound, 4
+			}
+			out = append(out, vsched.Variant{Name: c.name(), Bound: b, Shards: sh, BudgetS: budget})
 		}
 		return out
 	}
@@ -83,6 +88,7 @@ func init() {
 	}
 	withH := func(x connopsCfg, h time.Duration) connopsCfg { x.horizon = h; return x }
 	withDelta := func(x connopsCfg) connopsCfg { x.delta = true; return x }
+	withB := func(x connopsCfg, b int) connopsCfg { x.bound = b; return x }
 	connopsRegister(connopsSet{prop: "C04", qBound: 1, tBound: 2,
 		doc: "marker delivered to A iff A reports itself subscribed, at most once; exactly one hub routing entry with A's generation iff subscribed; none for a closed connection",
 		quick: []connopsCfg{
@@ -90,6 +96,9 @@ func init() {
 			c(false, false, false, "nsub", "nunsub"), c(false, true, false, "sub", "disc"), c(true, true, false, "unsub,sub", "nunsub"), c(false, true, true, "sub,unsub"),
 			withH(c(false, true, false, "sub,unsub,sub"), 6*time.Second),
 			withDelta(c(true, false, true, "unsub", "pub")), withDelta(c(true, false, false, "unsub", "pub")),
+			// a server-side subscribe held up beyond the 5 s wait gate of a client unsubscribe (preempted +
+			// timer first: two deviations), then a retry and a fresh subscribe before it resumes
+			withB(withH(c(false, false, false, "nsub", "unsub,unsub,sub"), 6*time.Second), 2),
 		},
 		thor: []connopsCfg{
 			c(false, true, false, "sub,unsub", "nsub"), c(true, false, false, "unsub", "nsub", "disc"), c(false, true, true, "sub,unsub", "pub"),
